@@ -61,7 +61,7 @@ func rulesC03(c *Ctx) {
 	nR1, nR2, nR4 := viewConfinementRules(c, iface, impls, impls, "R1", "R2", "R4")
 	c.Floor("R1", nR1, 7*19)
 	c.Floor("R2", nR2, 7)
-	c.Floor("R4", nR4, 18)
+	c.Floor("R4", nR4, 8)
 
 	// ---- R5 the memory tree has no way up ------------------------------------------
 	dir := c.P.Named(memfsPkg, "Dir")
